@@ -1,7 +1,8 @@
 """C45 — division planning never splits equal index values.
 
-Model:   lean/DaskModel/Model/SDL.lean  (transliteration of sorted_division_locations)
-Theorems: lean/DaskModel/Props/C45.lean
+Model:   lean/DaskModel/Model/SDL.lean  (transliteration of sorted_division_locations);
+         lean/DaskModel/Model/PartQuant.lean (quantile divisions; sections pq_* in _c45_quantiles.py)
+Theorems: lean/DaskModel/Props/C45.lean, lean/DaskModel/Props/C45xQuantiles.lean
 Tie:     function-level diff of `sorted_division_locations` against the Lean model, plus the
          property oracle evaluated directly on the real output; API-level `from_pandas`.
 """
@@ -27,19 +28,41 @@ LEVEL_TEXT = ("Lean 4 theorems, for every sorted sequence and both modes (nparti
               "sdl_at_most_n: never more than npartitions partitions; sdl_exact_when_enough_unique: the full fourth clause "
               "- with at least n distinct values exactly n partitions, WITH duplicates (enforce_exact step-back arithmetic) "
               "and without (sdl_exact_when_enough_unique_partial additionally gives the closed-form locations for "
-              "duplicate-free input). VALIDATED only: the quantile divisions (process_val_weights / RepartitionQuantiles: "
-              "non-decreasing, span min..max; numpy searchsorted/linspace on float weights, no Lean model) - random quantile "
-              "inputs and summaries. The tie of the model to the code is the function-level diff: exhaustive over all sorted "
-              "sequences of length <= 6 over 3 letters (thorough: <= 9 over 4) x all npartitions/chunksize (0 included) plus "
-              "random longer ones over int/str/float values.")
-LEVEL_NOTE = ("Trusted: Lean kernel + standard axioms; the differential tie model<->sorted_division_locations (function "
-              "level, every run); values compared only through <,<=,== (interned order-preservingly); bisect/sorted/set "
-              "of CPython; numpy searchsorted/interp inside process_val_weights (oracle-checked, not modelled).")
+              "duplicate-free input). QUANTILE DIVISIONS (Props/C45xQuantiles.lean over Model/PartQuant.lean: "
+              "merge_and_compress_summaries with toolz.merge_sorted, percentiles_to_weights, tree_groups/create_merge_tree, "
+              "process_val_weights, RepartitionQuantiles, the duplicate-dropping fix-up of _calculate_divisions; integer-valued "
+              "/ interned ordered values, EXACT integer weights): for every list of per-partition summaries with non-decreasing "
+              "values and positive weights, every merge-tree shape and every npartitions >= 1, quantile_divisions_monotone "
+              "(non-decreasing), quantile_divisions_span (first = minimum, last = maximum of everything summarised), "
+              "quantile_divisions_count (npartitions+1), quantile_divisions_members, pvw_total (the over-sampled branch never "
+              "raises), tree_groups_cover (Bresenham groups add up: no summary dropped), merge_and_compress_spec; "
+              "percentiles_summary_contract + percentiles_to_weights_positive show the hypotheses are what percentiles_summary "
+              "produces (picked positions as a parameter), giving quantile_divisions_span_data (min/max OF THE DATA); "
+              "set_index_divisions_fixup; span_needs_positive_weights_refuted (zero weight on the maximum loses it). "
+              "VALIDATED only for the quantile clause: the np.interp branch (under-sampled numeric data, then np.floor for integer "
+              "dtypes), float rounding of weights / weights.sum()/n / np.linspace targets (cases where the rounded targets "
+              "compare differently from the exact ones are counted as float-divergent and only oracle-checked), float-valued "
+              "data (linear interpolation in percentiles_summary), datetime / categorical conversions, NaN/NaT, the random "
+              "percentiles of sample_percentiles and tree_width (parameters of the model) - oracle-checked at function and API "
+              "level (int/float/str/datetime keys). The tie of the models to the code is the function-level diff: exhaustive "
+              "over all sorted sequences of length <= 6 over 3 letters (thorough: <= 9 over 4) x all npartitions/chunksize (0 "
+              "included) plus random longer ones over int/str/float values; for the quantile model: tree_groups exhaustive "
+              "N <= 24, merge_sorted / merge_and_compress_summaries / create_merge_tree (real tree_width) / process_val_weights "
+              "/ percentiles_to_weights on int and str values with half-integer weights, percentiles_summary, "
+              "_calculate_divisions.")
+LEVEL_NOTE = ("Trusted: Lean kernel + standard axioms; the differential tie model<->sorted_division_locations and "
+              "model<->partitionquantiles functions (function level, every run); values compared only through <,<=,== "
+              "(interned order-preservingly); bisect/sorted/set of CPython; np.searchsorted on a sorted array = count of "
+              "smaller(-or-equal) entries, np.cumsum, ndarray.sort, pandas Series.quantile('nearest') (positions are a model "
+              "parameter); numpy interp inside process_val_weights (oracle-checked, not modelled).")
 TECHNIQUE = "Lean 4 proof (loop invariant over an executable transliteration) + differential correspondence + property oracle on the real code"
 TRUSTED = ["Lean 4 kernel, axioms propext / Classical.choice / Quot.sound", "harness/props/c45.py differential tie (function level, "
            "exhaustive small space on every run)", "CPython bisect/sorted/set; NumPy inside process_val_weights (oracle-checked only)"]
 ASSUMPTIONS = ["values are compared only through <, <=, == (interned order-preservingly to Nat for the model)",
-               "bisect.bisect_left on a sorted list = number of leading elements < x"]
+               "bisect.bisect_left on a sorted list = number of leading elements < x",
+               "quantile model: weights are exact (integers / half-integers in the tie); np.searchsorted(c, q, 'left'|'right') on a "
+               "non-decreasing array = number of entries < q | <= q; per-partition summaries have non-decreasing values and "
+               "positive weights (proved from percentiles_summary's construction, checked on the real function)"]
 
 
 def _oracle(seq, mode, n, divs, locs):
